@@ -40,8 +40,8 @@ def inert_pool(kind, with_inf=False):
         'multipoint': [None, [], n2, n4],
         'line': [None, [], n4, n2],
         'ring': [None, [], n8],
-        'multiline': [None, [], [[]], [[], []], [n4], [n4, n2]],
-        'polygon': [None, [], [[]], [[], []], [n8], [n8, n8]],
+        'multiline': [None, [], [[]], [[], []], [n4], [n4, n2], [n2, []], [[], n4]],
+        'polygon': [None, [], [[]], [[], []], [n8], [n8, n8], [n8, []]],
         'multipolygon': [None, [], [[]], [[[]]], [[[]], [[]]], [[], [[]]], [[n8]], [[n8], [n8, n8]]],
     }[kind]
     if with_inf:
